@@ -128,9 +128,8 @@ theorem leaf_env (l : Leaf) (v : Val) (b : Bytes) (env : Env) (se : SEnv) (id : 
     · cases h
   | prim n =>
     have h' : encPrim n v = some b := by cases v <;> simpa [encLeaf] using h
-    obtain ⟨vs, hv⟩ := encPrim_list n v b h'
-    subst hv
-    simpa [leafMax, Env.bind] using hB
+    rw [encPrim_bind n v b env id h']
+    simpa [leafMax] using hB
 
 /-! ## frame: encoding a member binds only the member's own ids -/
 
